@@ -151,6 +151,10 @@ def run(tier: str, seed: int, pid="C07") -> int:
     ex = next(e for t in traces for e in t["events"] if e["op"] in ("objects", "draw", "global") and (len(e.get("objs", [])) or len(e.get("branches", [])) >= 2 or e.get("runs")))
     run_.sample({"event": ex})
     c09.judge(run_, traces, "lab+specs", pid)
+    if pid == "C07":
+        # specifications chosen by TLC (every productive system of the tree universe): generation judged against TreeUniverse.tla
+        from . import c12
+        c12.tree_gen_traces(run_, tier, seed, ("gen",))
     run_.rule = ("rule level: fixture classes x strategies x derived forms that support objects/maps resp. sampling, n <= 5; "
                  "specification level: campaign specifications (root and every rule) resp. all complete sampler runs for every (n, "
                  "parameters) with <= 40 objects; non-trivial = >= 2 objects generated / a draw with >= 2 branches / a specification")
